@@ -26,6 +26,7 @@ void mt_decode_engine(mt_case * c, mt_engine_cfg * e, int maxW) {
   e->W = 1 + (int)(b0 % (unsigned)maxW);
   e->tail_preempt = tails[b1 & 7];
   e->mode = (c->tier == 1 && b2 >= 224) ? MV_NOISE : MV_CONTROLLED;
+  { static const int fills[8] = { 0, 0, 0, 0, 0xFF, 0x01, 0xAB, 0x80 }; mt_fill_byte = c->cfg.n > 4 ? fills[c->cfg.p[4] & 7] : 0; mt_hash_u((uint64_t)mt_fill_byte); }
   /* long windows: the pure status-polling loops of the library (no hook points inside) may poll in place for a
      while before anybody else runs -- the schedule in which every other worker is slow for that long */
   { static const int ids[8] = { MVS_JOIN_READY2_A, MVS_JOIN_READY2_B, MVS_TRYJOIN_READY2, MVS_DETACH_READY2, MVS_UNCOND_SIGNAL, MVS_MINIT, 0, 0 };
@@ -36,6 +37,7 @@ void mt_decode_engine(mt_case * c, mt_engine_cfg * e, int maxW) {
 }
 
 static mv_config g_cfg;
+int mt_fill_byte;
 
 /* push and pop are the owner's operations: whoever executes one on a worker's run queue must be running on that worker */
 static void qop_check(void * q, int kind) {
@@ -73,6 +75,7 @@ void mt_lib_start(mt_case * c, mt_engine_cfg * e, size_t def_stack) {
     if (def_stack) { mt_desc("default stack size %zu\n", def_stack); mt_hash_u(def_stack); }
   }
   if (def_stack) myth_globalattr_set_stacksize(&a, def_stack);
+  if (mt_fill_byte) mt_desc("synchronisation objects are initialised on memory filled with 0x%02x\n", mt_fill_byte);
   myth_init_ex(&a);
   memset(&g_cfg, 0, sizeof g_cfg);
   g_cfg.mode = e->mode;
